@@ -13,19 +13,19 @@ def geoShiftC (g : GeoDims) (c : Key) (sh : Int × Int) : Key :=
 
 /-- `x` and `y` differ by a whole number of axial blocks (both rings) and a whole number of transaxial blocks (both detectors) -/
 def LatRel (g : GeoDims) (x y : Key) : Prop :=
-  ∃ i l : Int, x = (y.1 + i * g.acpb, y.2.1 + l * (g.half * 2), y.2.2.1 + i * g.acpb, y.2.2.2 + l * (g.half * 2))
+  ∃ p q : Int, g.acpb ∣ p ∧ (g.half * 2) ∣ q ∧ x = (y.1 + p, y.2.1 + q, y.2.2.1 + p, y.2.2.2 + q)
 
-theorem LatRel.refl (g : GeoDims) (x : Key) : LatRel g x x := ⟨0, 0, by simp⟩
+theorem LatRel.refl (g : GeoDims) (x : Key) : LatRel g x x := ⟨0, 0, dvd_zero _, dvd_zero _, by simp⟩
 
 theorem LatRel.symm {g : GeoDims} {x y : Key} (h : LatRel g x y) : LatRel g y x := by
-  obtain ⟨i, l, rfl⟩ := h
-  refine ⟨-i, -l, ?_⟩
+  obtain ⟨p, q, hp, hq, rfl⟩ := h
+  refine ⟨-p, -q, (dvd_neg).2 hp, (dvd_neg).2 hq, ?_⟩
   ext <;> simp
 
 theorem LatRel.trans {g : GeoDims} {x y z : Key} (h : LatRel g x y) (h' : LatRel g y z) : LatRel g x z := by
-  obtain ⟨i, l, rfl⟩ := h
-  obtain ⟨i', l', rfl⟩ := h'
-  refine ⟨i + i', l + l', ?_⟩
+  obtain ⟨p, q, hp, hq, rfl⟩ := h
+  obtain ⟨p', q', hp', hq', rfl⟩ := h'
+  refine ⟨p' + p, q' + q, dvd_add hp' hp, dvd_add hq' hq, ?_⟩
   ext <;> simp <;> ring
 
 /-- no multiple of `T` lies strictly between `0` and `T` -/
@@ -181,10 +181,11 @@ theorem mem_geoOrbit (wf : d.WF) (fits : g.Fits d) {c : Key} (hc : c ∈ geoLoop
     obtain ⟨hsh, hin⟩ := List.mem_filter.1 hsh
     obtain ⟨_, hcan, _, _⟩ := geoShift_spec wf fits hc hsh
     obtain ⟨r1, r2, r3, r4, _⟩ := geoShift_ranges wf fits hc hsh
-    refine ⟨?_, sh.1, sh.2, rfl⟩
+    refine ⟨?_, sh.1 * g.acpb, sh.2 * (g.half * 2), dvd_mul_left _ _, dvd_mul_left _ _, rfl⟩
     rw [← hcan]
     exact (canonOf_spec wf hin r1 r2 r3 r4).1
-  · rintro ⟨hx, i, l, rfl⟩
+  · rintro ⟨hx, p, q, ⟨i, rfl⟩, ⟨l, rfl⟩, rfl⟩
+    rw [mul_comm g.acpb i, mul_comm (g.half * 2) l] at hx ⊢
     obtain ⟨⟨x1, x2⟩, ⟨x3, x4⟩, ⟨x5, x6⟩, x7, x8⟩ := mem_canon.1 hx
     simp only at x1 x2 x3 x4 x5 x6 x7 x8
     -- the block numbers are in range
